@@ -50,9 +50,10 @@ Mul(x, y) == IF IsZero(x) \/ IsZero(y) THEN Zero ELSE IF x = One THEN y ELSE IF 
         x[1] * y[3] + x[2] * y[2] + x[3] * y[1] - x[4] * y[4],
         x[1] * y[4] + x[2] * y[3] + x[3] * y[2] + x[4] * y[1],
         x[5] + y[5]>>)
-RECURSIVE SumFrom(_, _)
-SumFrom(s, i) == IF i > Len(s) THEN Zero ELSE Add(s[i], SumFrom(s, i + 1))
-SumD(s) == SumFrom(s, 1)
+\* (TLCEval: TLC keeps [x \in S |-> e] unevaluated and would re-evaluate it at every Len / application)
+RECURSIVE SumFrom(_, _, _)
+SumFrom(s, i, n) == IF i > n THEN Zero ELSE Add(s[i], SumFrom(s, i + 1, n))
+SumD(s) == LET t == TLCEval(s) IN SumFrom(t, 1, Len(t))
 
 \* w^k
 W(k) == LET j == k % 8 IN
